@@ -12,6 +12,8 @@ def cchars(E, st, p, limit=1 << 16):
     out = []
     while len(out) < limit:
         b = E.load(st, p + len(out), 1)
+        if is_sym(b) and b.decl().name().startswith('uninit_'):
+            raise Violation('uninit', 'C string function reads a byte that was never written (at %#x)' % (p + len(out)))
         if not is_sym(b):
             if b == 0: return out
         else:
@@ -32,13 +34,23 @@ def install(E):
     def atoll_bits(bits):
         def f(E, st, fr, I, A):
             p = A[0]; i = 0; neg = False
-            b = E.load(st, p, 1)
-            while not is_sym(b) and b in (32, 9, 10, 13, 11, 12): i += 1; b = E.load(st, p + i, 1)
+            def decide(cond):
+                if _definitely(E, st, cond): return True
+                if _definitely(E, st, z3.Not(cond)): return False
+                raise NeedFork(cond)
+            while True:
+                b = E.load(st, p + i, 1)
+                if is_sym(b):
+                    if b.decl().name().startswith('uninit_'): raise Violation('uninit', 'atoi/atoll reads a byte that was never written')
+                    ws = z3.Or(b == 32, z3.And(z3.UGE(b, 9), z3.ULE(b, 13)))
+                    if decide(ws): i += 1; continue
+                    break
+                if b in (32, 9, 10, 11, 12, 13): i += 1; continue
+                break
+            b = E.load(st, p + i, 1)
             if is_sym(b):
-                sgn = z3.Or(b == 43, b == 45)
-                if not _definitely(E, st, z3.Not(sgn)):
-                    if _definitely(E, st, sgn): raise Unsupported('symbolic sign character')
-                    raise NeedFork(sgn)
+                if decide(b == 45): neg = True; i += 1
+                elif decide(b == 43): i += 1
             elif b in (43, 45): neg = b == 45; i += 1
             val = 0
             while True:
@@ -125,7 +137,9 @@ def install(E):
     S['strcmp'] = strcmp_n(False); S['strncmp'] = strcmp_n(True)
     def strndup(E, st, fr, I, A):
         p, n = A
-        if is_sym(n): raise Unsupported('symbolic strndup length')
+        if is_sym(n):
+            args = [(at, av, info) for (at, av, info) in I['args'] if av is not None]
+            return ('forks', E.fork_arg(st, fr, I, args, 1, 'strndup length'))
         out = []
         for i in range(n):
             b = E.load(st, p + i, 1)
